@@ -183,6 +183,8 @@ pub fn run_sched(
     budget: Duration,
     own_clause: fn(&str) -> bool,
 ) {
+    // budgets of 300 s and more are thorough-tier budgets: nominal, scaled globally
+    let budget = if budget >= Duration::from_secs(300) && std::env::var("RDBCHECK_BUDGET_S").is_err() { crate::report::scaled(budget) } else { budget };
     if let Some(req) = crate::report::replay_request("schedx") {
         let want = req["artefact"]["program"]["program"].as_str().unwrap_or("").to_string();
         if let Some(p) = progs.iter().find(|p| p.name == want) {
